@@ -5,6 +5,20 @@ props = [json.loads(l) for l in open(os.path.join(VERIF, "properties.jsonl"))]
 ids = [p["id"] for p in props]
 
 CHECKS = {
+ "C10": dict(
+   text="Proof: props/C10.v (closed). For any circuit, any set of monitored components, any schedules of the two parts, any excitation and "
+        "EVERY wave solution of the network equations, the read-out has exactly one entry per link between a monitored and a "
+        "non-monitored component, names the pin on the monitored side, and reports as '_i' the wave entering and as '_o' the wave leaving "
+        "the monitored side there (monitor_waves: the pair's network equations have a unique interface solution and int_complete returns "
+        "it); the matrix obtained with monitors reports the network equations and therefore has the coefficients of a plain solve "
+        "(monitor_transparent); for a lossless monitored part incoming and outgoing powers over its pins balance (monitor_balance). The "
+        "tie declares every non-empty proper subset of small circuits (random subsets of larger ones) as monitors, excites random subsets "
+        "of exposed pins with complex amplitudes in amplitude and power mode, compares the matrix and the SET of columns with the model; "
+        "two further streams declare the monitors only after an earlier solve and re-read a result's monitor table after later solves "
+        "with another parameter value.",
+   note="Trusted: Coq kernel + vm_compute; Bignums primitives for the executed instance; model Monitor.v tied by sampled correspondence; "
+        "harness. Sweeps of monitored circuits reduce to the per-point statement (C04). Follows the fixed code (F25, F07).",
+   technique="Coq proof (uniqueness of interface waves; two-group hierarchy) + vm_compute correspondence incl. late monitors and re-reads", design="§5 C10"),
  "C11": dict(
    text="Proof: props/C11.v (closed). Wiring: the flattened solver contains no sub-solvers and denotes the same single-level circuit "
         "(flatten_inline), so by the C02 theorem the hierarchy before and the solver after flatten both have the coefficients of any solve "
